@@ -612,7 +612,17 @@ def check_c14(rng, n):
                     nd["comp"] = nd["comp"] + rng.choice([0.5, 0.25])
                 if rng.random() < 0.3:
                     nd["task_data"] = rng.choice([0.5, 2.5, 7.75])
-        name = rng.choice(["a", "obs1", "emu"])
+        if rng.random() < 0.25 and len(wf["nodes"]) >= 2:
+            # string node labels as the workflow translators emit them ('c<channel>_<index>'), chosen so that
+            # they collide once their underscores are dropped
+            pool = ["c1_10", "c11_0", "c1_1", "c11", "c_11", "c2_3", "c23", "c2_30", "c23_0", "c0_0"]
+            ids = [nd["id"] for nd in wf["nodes"]]
+            lab = dict(zip(ids, rng.sample(pool, len(ids)))) if len(ids) <= len(pool) else None
+            if lab:
+                for nd in wf["nodes"]:
+                    nd["id"] = lab[nd["id"]]
+                wf["edges"] = [[lab[e[0]], lab[e[1]], e[2]] for e in wf["edges"]]
+        name = rng.choice(["a", "obs1", "emu", "emu_b"])
         spec = {"machines": [{"id": "m0", "flops": 10, "bw": 2}], "system_bandwidth": 1, "total_arrays": 4,
                 "max_ingest": 1, "observations": [{"name": name, "start": 0, "duration": 2, "demand": 1, "rate": 1,
                                                    "ingest_demand": 1, "workflow": wf}],
@@ -780,6 +790,10 @@ def check_c11(rng, n, thorough=False):
                     s2.resume(until=T2 + 2)
                     ref = runsim.run_spec(spec, until=int(T2) + 2)
                     got = runsim.outputs(s2)
+                    if len(got["rows"]) != int(T2) + 2:
+                        res["violations"].append({"prop": "C12", "kind": "row-count-after-finish", "sig": "row-count-after-finish",
+                                                  "detail": "start(); resume(%s): %d rows for %s simulated timesteps" % (
+                                                      int(T2) + 2, len(got["rows"]), int(T2) + 2), "input": {"spec": spec}})
                     if got["rows"] != ref["out"]["rows"] or got["events"] != ref["out"]["events"]:
                         res["violations"].append({"prop": "C11", "kind": "paused-run-differs", "sig": "paused-run-differs:after-completion",
                                                   "detail": "start(); resume(T+2) differs from start(T+2)", "input": {"spec": spec}})
@@ -868,6 +882,22 @@ def check_c10(rng, n, hashseeds=("0", "1", "2")):
                             nd["comp"] = mx * rng.randint(8, 20)
                 elif spec.get("delay") and "prob" in spec["delay"]:
                     spec["delay"] = None
+            if shape == "batch" and i % 10 < 5:
+                # identical machines, a fork whose branches fetch DIFFERENT amounts of data from the common
+                # predecessor: which ready task gets the predecessor's own machine decides the start times
+                nm = rng.randint(3, 4)
+                spec["machines"] = [{"id": "m%d" % k, "flops": 10, "bw": 2} for k in range(nm)]
+                spec["max_ingest"] = min(spec["max_ingest"], nm)
+                spec["scheduling"] = {"kind": "batch", "partitions": 1, "min": 1, "split": None}
+                spec["delay"] = None
+                for o in spec["observations"]:
+                    k = rng.randint(2, nm)
+                    nodes = [{"id": 0, "comp": 20}] + [{"id": j, "comp": 10 * rng.randint(1, 4)} for j in range(1, k + 1)]
+                    nodes.append({"id": k + 1, "comp": 10})
+                    vols = rng.sample([2, 4, 6, 8, 12, 16], k)
+                    edges = [[0, j, vols[j - 1]] for j in range(1, k + 1)] + [[j, k + 1, rng.choice([0, 2])] for j in range(1, k + 1)]
+                    o["workflow"] = {"nodes": nodes, "edges": edges}
+                    o["ingest_demand"] = min(o["ingest_demand"], spec["max_ingest"])
             if shape == "tie":
                 # planned-start ties: several roots with zero planned duration on few machines, so that a
                 # plan-driven algorithm meets ready tasks of equal est planned on the same machine
